@@ -1,8 +1,8 @@
 #!/bin/bash
 # runall.sh [tier] [seed]: run every claimed check once; prints one line per check
 tier=${1:-quick}; seed=${2:-0}
-cd /verif
-for id in $(cat tools/claimed.txt); do
+cd "$(dirname "$0")/.."
+for id in ${YV_IDS:-$(cat tools/claimed.txt)}; do
   s=$(date +%s)
   out=$(VERIF_SEED=$seed ./check $id $tier 2>&1); rc=$?
   e=$(( $(date +%s) - s ))
